@@ -10,7 +10,8 @@ PROP = {
                   "'signal configured' x 'encoder accepted', exactly one effect per path - the send of the first configured and "
                   "accepting signal in the order metrics, traces, logs - and the discard counter iff none).",
     "technique": "bounded model checking (Kani/CBMC) of MetricsEventEncoder/TracesEventEncoder/LogsEventEncoder::encode_event(..).is_some() "
-                 "over symbolic events, with a RawEncoder that does not serialise (the decision is taken before E::encode)",
+                 "over symbolic events, with a RawEncoder that does not serialise (the decision is taken before E::encode); control-flow abstraction of the "
+                 "MIR of <OtlpInner as Emitter>::emit decided by SMT (cvc5, z3 cross-check) over all valuations of signal presence x encoder answers",
     "functions": [
         "emit_otlp::data::metrics::{MetricsEventEncoder::encode_event, DataPointBuilder::points_from_value (Extract stream), "
         "SumPoints::{push_point_i64, push_point_f64, into_points}, RawPointSet::{push_point_i64, push_point_f64, into_points}}",
